@@ -298,8 +298,15 @@ def run(ctx):
         if not ok:
             ctx.broken('correspondence', 'model build', ctx._first_error(log))
             return
-        with ThreadPoolExecutor(max_workers=4) as ex:
-            results = list(ex.map(lambda j: ctx.coq_mism(j[0], HEADER, j[1], j[2], j[3], deps=()), jobs))
+        with ThreadPoolExecutor(max_workers=6) as ex:
+            def one(j):
+                t0 = time.time()
+                r = ctx.coq_mism(j[0], HEADER, j[1], j[2], j[3], shard=1300, deps=())
+                timing[j[0]] = (len(j[3]), round(time.time() - t0, 1))
+                return r
+            timing = {}
+            results = list(ex.map(one, jobs))
+            ctx.cov['coq_eval_timing (cases, s)'] = timing
         for (stream, eqb, runf, cases, first), (mism, err) in zip(jobs, results):
             if err:
                 ctx.broken('correspondence', f'{stream} (coq evaluation)', err)
